@@ -410,8 +410,11 @@ def scan_lexicons(source: AnyPath) -> list[ScanInfo]:
         flags=re.M
     )
 
+    # comments and CDATA sections may contain text that looks like tags
+    skip_re = re.compile(b'<!--.*?-->|<!\\[CDATA\\[.*?\\]\\]>', flags=re.S)
+
     with open(source, 'rb') as fh:
-        for m in lex_re.finditer(fh.read()):
+        for m in lex_re.finditer(skip_re.sub(b'', fh.read())):
             lextype, remainder = m.groups()
             attrs = {
                 _m.group(1).decode("utf-8"): _unescape_attribute((
